@@ -35,6 +35,9 @@ HEADER = re.compile(rb"^\[monorail \| (?:\x1b\[[0-9;]*m)?(stdout\.zst|stderr\.zs
 
 
 def make_repo(s, maxr, out_dir=None):
+    foreign = False
+    if out_dir == "@foreign-cwd":
+        out_dir, foreign = None, True
     cmds = {"a": {"build": "x", "lint": "x"}, "b": {"test": "x", "lint": "x"}}
     # Monorail.json (which carries per-scratch ports) is kept out of git so that HEAD, and with it the
     # checkpoint id stored in the copied output directory, is the same in every scratch repository
@@ -43,6 +46,8 @@ def make_repo(s, maxr, out_dir=None):
                 files={".gitignore": "monorail-out\nMonorail.json\n" + ("%s\n" % out_dir.split("/")[0] if out_dir else "")})
     for (c, t), (lines, _, _) in SCRIPTS.items():
         r.set_script(t, c, lines)
+    if foreign:
+        r.foreign_cwd()
     return r
 
 
@@ -81,6 +86,9 @@ def disk_state(r):
                         try:
                             d = canon_result(json.loads(data))
                             d.get("out", {}).get("run", {}).pop("path", None)
+                            # with `-f <config>` the invocation string contains the scratch path
+                            # (older slots were written from other scratch directories)
+                            d["invocation"] = re.sub(r"-f \S*Monorail\.json ", "", str(d.get("invocation", "")))
                             data = json.dumps(d, sort_keys=True).encode()
                         except Exception:
                             pass
@@ -225,9 +233,10 @@ def run(prop, tier):
     ctx = multiprocessing.get_context("fork")
     try:
         if True:
-            variants = [(m, None) for m in maxes] + [(2, "var/mr out")]   # also a custom out_dir (nested, with a space)
+            # also a custom out_dir (nested, with a space), and every invocation made from another directory
+            variants = [(m, None) for m in maxes] + [(2, "var/mr out"), (2, "@foreign-cwd")]
             for (maxr, odir) in variants:
-                store = os.path.join(store_s.dir, "m%d%s" % (maxr, "o" if odir else ""))
+                store = os.path.join(store_s.dir, "m%d%s" % (maxr, "" if not odir else "f" if odir.startswith("@") else "o"))
                 os.makedirs(store)
                 seen = {None: []}
                 frontier = [(None, [], {})]
@@ -251,8 +260,12 @@ def run(prop, tier):
                             nxt.append((r["key"], t[3] + [t[4]], {int(k): set(map(tuple, v)) for k, v in r["ran"].items()}))
                     frontier = nxt
                     depth += 1
+                    if len(seen) > 1500:
+                        # a healthy tree converges at a few dozen states; do not run for ever on one that does not
+                        agg.setdefault("notes", []).append("max=%s: more than 1500 states, search stopped" % (maxr,))
+                        break
                 agg["states"] += len(seen)
-                agg["fixpoint"][str(maxr) + ("+custom out_dir" if odir else "")] = {"states": len(seen), "depth": depth, "converged": not frontier}
+                agg["fixpoint"][str(maxr) + ("" if not odir else "+foreign cwd" if odir.startswith("@") else "+custom out_dir")] = {"states": len(seen), "depth": depth, "converged": not frontier}
                 if len(seen) > 2:
                     agg["samples"].append({"max_retained_runs": maxr, "out_dir": odir, "history": [RUNS[h]["name"] for h in list(seen.values())[-1]]})
     finally:
